@@ -1,7 +1,8 @@
 (* Extraction of the C11 model (encoder, RFC 8259 reader, decoder route) and of the
    specification functions (tree_of, norm, domain predicates) to OCaml. *)
 From Coq Require Import ZArith List ExtrOcamlBasic.
-Require Import ZV.Model.Json.
+Require Import ZV.Model.Json ZV.Model.Msgpack.
 Extraction "model.ml" Z.add Z.mul Z.opp Z.div_eucl Z.of_nat Z.to_nat Z.compare
   to_json json_quote json_parse tree_of of_tree unjson norm wf data no_reserved_keys sym_keys
-  pstr fix_str float_token str_eqb int_token run_ops.
+  pstr fix_str float_token str_eqb int_token run_ops
+  msgpack_bytes unmsgpack_bytes unjson_go gtree_of gt_ok mp_decode mp_bytes.
